@@ -135,6 +135,7 @@ def run(tier, seed, replay=None):
                        'fast simulator: the cut is on a chunk boundary, as the property says']
     from translator import gen_all
     ok, msgs = gen_all.generate()
+    msgs = gen_all.relevant(msgs, ['simidx']); ok = not msgs
     res.oblige('translator regenerated the simulators\' reads of the input arrays (Gen/simidx.v)', ok, '\n'.join(msgs))
     C.standard_proof_step(res, 'Props.C01', THEOREMS, ['theories/Props/C01.vo', 'theories/Run/C01Run.vo'])
     rng = C.rng_for(seed, PID)
